@@ -208,7 +208,7 @@ def run(ctx):
         # the real process for a sample
         for (mode, txt) in rng.sample([c for c in cases if c[0] == '-p'], 4 if ctx.quick else 40):
             pr = subprocess.run([sys.executable, '-m', 'hpl', '-p', '-o', 'json', txt], capture_output=True, text=True,
-                                env=dict(os.environ, PYTHONPATH='/repo/src'), timeout=120)
+                                env=dict(os.environ, PYTHONPATH=os.path.join(os.environ.get('HPL_REPO', '/repo'), 'src')), timeout=120)
             rc2, out2, _ = run_main(['-p', '-o', 'json', txt])
             stats['subprocess_runs'] += 1
             if pr.returncode != rc2 or (rc2 == 0 and pr.stdout != out2):
